@@ -11,7 +11,7 @@ from __future__ import annotations
 
 import ast
 import string
-from dataclasses import dataclass, field
+from dataclasses import dataclass, field, replace as dc_replace
 
 from .model import AnalysisError, ClassInfo, FuncInfo, Module, Program
 
@@ -291,6 +291,28 @@ def slots_in(v, out=None, depth: int = 0) -> list:
                 continue
             slots_in(getattr(v, n), out, depth + 1)
     return out
+
+
+def map_slots(v, mp: dict, depth: int = 0):
+    """rebuild a value with the evaluation index of its render calls renumbered through mp"""
+    if depth > 14:
+        return v
+    if isinstance(v, SlotP):
+        return dc_replace(v, idx=mp.get(v.idx, v.idx))
+    if isinstance(v, tuple):
+        out = tuple(map_slots(i, mp, depth + 1) for i in v)
+        return out if any(a is not b for a, b in zip(out, v)) else v
+    if isinstance(v, CtxV) or not hasattr(v, "__dataclass_fields__"):
+        return v
+    ch = {}
+    for n in v.__dataclass_fields__:
+        if n in ("src", "ctx", "cond", "source", "filt"):
+            continue
+        old = getattr(v, n)
+        new = map_slots(old, mp, depth + 1)
+        if new is not old:
+            ch[n] = new
+    return dc_replace(v, **ch) if ch else v
 
 
 # ----------------------------------------------------------------------------- pretty printer
@@ -807,7 +829,7 @@ class Evaluator:
     def exec_for(self, st: ast.For, fr: Frame):
         if st.orelse:
             self.unsupported(st, fr, "for-else")
-        it = self.eval(st.iter, fr)
+        it = self.consume_lazy(self.eval(st.iter, fr))
         # concrete finite iteration (constant lists / tuples): unroll
         if isinstance(it, ListV) and all(isinstance(i, One) and i.cond is None for i in it.items) and len(it.items) <= 12:
             for i in it.items:
@@ -1460,6 +1482,7 @@ class Evaluator:
             if a0 is None:
                 return ListV((), name if name in ("set", "tuple") else "list")
             if isinstance(a0, ListV):
+                a0 = self.consume_lazy(a0)
                 return ListV(a0.items, "list" if name in ("list", "sorted") else a0.kind)
             return ListV((RepI((One(Sym("elem", (a0,))),), a0),), "list")
         if name == "type" and len(args) == 1 and isinstance(a0, Obj):
@@ -1732,9 +1755,23 @@ class Evaluator:
             out = concat(out, self.to_str(v, "str" if conv == "s" else "format", fr, e))
         return out
 
+    def consume_lazy(self, seq):
+        """a generator expression runs when it is consumed, not where it is written: its render calls are evaluated now"""
+        if isinstance(seq, ListV) and seq.kind == "gen":
+            order = sorted({sp.idx for sp in slots_in(seq)})
+            if order:
+                mp = {}
+                for o in order:
+                    self.idx += 1
+                    mp[o] = self.idx
+                seq = map_slots(seq, mp)
+            return ListV(seq.items, "list")
+        return seq
+
     def join(self, sep: Str, seq, fr, e) -> Str:
         if isinstance(seq, Phi):
             return s_alt(seq.cond, self.join(sep, seq.a, fr, e), self.join(sep, seq.b, fr, e))
+        seq = self.consume_lazy(seq)
         if not isinstance(seq, ListV):
             return Str((Rep(Str((Hole(Sym("elem", (seq,)), "format", self.src(fr, e)),)), sep, seq),))
         items = seq.items
